@@ -17,6 +17,10 @@
 //        W (vCPU A) waits on a condition variable with a random timeout of 1..<timeout> us, N (vCPU B) calls notify_one() after a
 //        random delay: every notify_one() that reports a woken waiter must be matched by a wait() returning 0 and vice versa
 //        (log: signal N <k> = notify_one()'s result, got W 1 = wait() returned 0; balance checked with remaining 0 at the end)
+//   intrrace <rounds> <sleep us> <os 0|1>
+//        S (vCPU A) sleeps <sleep us>; X (another vCPU, or a plain OS thread) calls thread_interrupt(S) about when that sleep times
+//        out. The sleep returns 0 or -1/EINTR (delivered); when X's call has returned S sleeps again, undisturbed: that second sleep
+//        must last its full time (stale otherwise).  log: issued | delivered | stale | wrong-result
 //   semd <nvcpu> <pairs> <rounds> <os 0|1>
 //        destroy right after wait: the waiter destroys the semaphore and fills its memory with a pattern as soon as wait() returns;
 //        when the signaller's signal() has returned the pattern must be intact:   late-write <pair> <round>   otherwise
@@ -52,7 +56,7 @@ struct Rec { int kind; int t; long a; long b; };
 static const int MAXLOG = 1 << 21;
 static Rec* logbuf; static std::atomic<long> logpos{0};
 static void ev(int kind, int t, long a = 0, long b = 0) { long i = logpos.fetch_add(1); if (i < MAXLOG) logbuf[i] = {kind, t, a, b}; }
-enum { CALL_R, CALL_W, RET_R, RET_W, UNLOCK, OVERLAP, SIGNAL, GOT, LATE, PRODUCED, GOTITEM, INTR };
+enum { CALL_R, CALL_W, RET_R, RET_W, UNLOCK, OVERLAP, SIGNAL, GOT, LATE, PRODUCED, GOTITEM, INTR, ISSUED, DELIVERED, STALE, WRONG };
 static std::string TOS;
 static std::atomic<long> progress{0}; static std::atomic<int> finished_threads{0};
 static int total_threads = 0;
@@ -73,6 +77,10 @@ static void dump_log() {
         case PRODUCED: printf("produced %d %ld\n", r.t, r.a); break;
         case GOTITEM: printf("got %d %ld %ld\n", r.t, r.a, r.b); break;
         case INTR: printf("intr T%d\n", r.t); break;
+        case ISSUED: printf("issued\n"); break;
+        case DELIVERED: printf("delivered\n"); break;
+        case STALE: printf("stale round=%d ret=%ld errno=%ld\n", r.t, r.a, r.b); break;
+        case WRONG: printf("wrong-result round=%d ret=%ld errno=%ld\n", r.t, r.a, r.b); break;
         } }
 }
 static void finish(const char* res) { dump_log(); printf("%s\n", res); fflush(stdout); _exit(0); }
@@ -252,6 +260,32 @@ static void condrace_N() {
     }
     finished_threads++;
 }
+static std::atomic<long> i_round{0}, i_xdone{0}; static std::atomic<thread*> i_S{nullptr}; static long i_rounds = 0, i_sleep = 50;
+static void intrrace_S() {
+    i_S.store(CURRENT);
+    for (long r = 1; r <= i_rounds; ++r) {
+        i_round.store(r);
+        errno = 0; int ret = thread_usleep(i_sleep); int en = ret ? errno : 0;
+        if (ret == -1 && en == EINTR) ev(DELIVERED, (int)r); else if (ret != 0) ev(WRONG, (int)r, ret, en);
+        while (i_xdone.load() != r) {}                    // the interrupt of this round has been issued and thread_interrupt() has returned
+        errno = 0; ret = thread_usleep(100); en = ret ? errno : 0;
+        if (ret != 0) ev(STALE, (int)r, ret, en);
+        progress++;
+    }
+    finished_threads++;
+}
+static void intrrace_X() {
+    unsigned rs = 17;
+    while (!i_S.load()) {}
+    for (long r = 1; r <= i_rounds; ++r) {
+        while (i_round.load() != r) { if (finished_threads.load()) return; }
+        rs = rs * 1103515245 + 12345;
+        // the sleep ends when the vCPU's coarse clock has passed the deadline (up to about a millisecond later): aim anywhere in there
+        long d = i_sleep * 1000 - 4000 + (long)((rs >> 8) % 1300000); if (d > 0) spin_ns(d);
+        ev(ISSUED, (int)r); thread_interrupt(i_S.load(), EINTR);
+        i_xdone.store(r);
+    }
+}
 struct Pair { std::atomic<semaphore*> sem{nullptr}; std::atomic<int> signalled{0}, taken{0}; };
 static void semd_waiter(Pair* p, int id, int rounds) {
     for (int r = 0; r < rounds; ++r) {
@@ -365,6 +399,13 @@ static int run_program(const std::vector<std::string>& lines) {
         on_vcpu({[] { condrace_W(); }});
         on_vcpu({[] { condrace_N(); }});
         total_threads = 2;
+    } else if (kind == "intrrace") {
+        int useos; is >> i_rounds >> i_sleep >> useos;
+        // a second thread keeps S's vCPU busy (yielding), so that its timers are examined every few hundred nanoseconds instead of at
+        // the event engine's millisecond granularity: the time-out of the sleep really happens around the aimed moment
+        on_vcpu({[] { intrrace_S(); }, [] { while (!finished_threads.load()) thread_yield(); }});
+        if (useos) os.emplace_back([] { intrrace_X(); }); else on_vcpu({[] { intrrace_X(); }});
+        total_threads = 1;
     } else if (kind == "semd") {
         int nv, pairs, rounds, useos; is >> nv >> pairs >> rounds >> useos;
         std::vector<std::vector<std::function<void()>>> per(nv);
